@@ -1,10 +1,10 @@
 package handshake
 
 //symgo:pkg github.com/pion/dtls/v3/pkg/protocol/handshake
-//symgo:param NMSGBODY quick=12 thorough=16
-//symgo:param NKX quick=12 thorough=16
+//symgo:param NMSGBODY quick=10 thorough=16
+//symgo:param NKX quick=8 thorough=10
 //symgo:param NCERT quick=10 thorough=14
-//symgo:param NCREQ quick=9 thorough=12
+//symgo:param NCREQ quick=7 thorough=8
 //symgo:param NHELLO quick=9 thorough=16
 //symgo:param NTICKET quick=6 thorough=10
 //symgo:outside message bodies longer than the per-decoder byte bound stated at each entry; handshake bodies of 64 KiB and more except for the ServerKeyExchange identity-hint length check (zzDecHsServerKeyExchangeHuge)
@@ -236,13 +236,17 @@ func zzDecHsNewSessionTicketNoPanic() {
 	zzsymCover("nst_ok")
 }
 
-// decodeCipherSuiteIDs (ClientHello cipher_suites<2..2^16-2>) on every length 0..NMSGBODY: no panic, terminates;
-// every returned id was present in the buffer.
+// decodeCipherSuiteIDs (ClientHello cipher_suites<2..2^16-2>) on every length 0..NMSGBODY with a declared length
+// below 160: no panic, terminates; every returned id was present in the buffer.
 //
 //symgo:entry covers=cs_ok,cs_rejected
 func zzDecHsCipherSuiteIDsNoPanic() {
 	n := zzsymChoice("len", zzsymParam("NMSGBODY")+1)
 	data := zzsymBytes("d", n)
+	if n >= 2 {
+		// the decoder allocates the declared count before validating it; the engine enumerates <= 80 sizes
+		zzsymAssume(zzsymAnd(data[0] == 0, data[1] < 160))
+	}
 	ids, err := decodeCipherSuiteIDs(data)
 	if err != nil {
 		zzsymCover("cs_rejected")
@@ -250,4 +254,20 @@ func zzDecHsCipherSuiteIDsNoPanic() {
 	}
 	zzsymAssert(2*len(ids)+2 <= n, "cipher_suites_within_buffer")
 	zzsymCover("cs_ok")
+}
+
+// decodeCipherSuiteIDs with a large declared length (160, 256, 0x7fff, 0xfffe, 0xffff: concrete, because the
+// decoder allocates the declared count up front) in a buffer of every length 2..NMSGBODY whose other bytes are
+// arbitrary: no panic, always rejected, so the up-to-64 KiB allocation is transient.
+//
+//symgo:entry covers=csl_rejected
+func zzDecHsCipherSuiteIDsLargeCount() {
+	n := 2 + zzsymChoice("len", zzsymParam("NMSGBODY")-1)
+	decl := []int{160, 256, 0x7fff, 0xfffe, 0xffff}[zzsymChoice("declared", 5)]
+	data := make([]byte, n)
+	copy(data[2:], zzsymBytes("d", n-2))
+	data[0], data[1] = byte(decl>>8), byte(decl)
+	_, err := decodeCipherSuiteIDs(data)
+	zzsymAssert(err != nil, "oversized_cipher_suite_list_rejected")
+	zzsymCover("csl_rejected")
 }
